@@ -11,6 +11,7 @@ RULE = ("generated templates (text, expressions, helpers, blocks, indented parti
         "render_template_to_write and their _with_context twins counts the writer calls n, then EVERY k in 0..n (capped at 200) is run with a writer "
         "failing at call k: the result must be Err(IOError), nothing is written after the failure, the bytes accepted are "
         "a prefix of the fault-free output and equal to its first k segments; the model computes the same truncation; "
+        "plus short-write writers accepting at most 1, 2, 3, 7 bytes per call (same bytes, same result as the fault-free run), with a harness helper that writes through write! with a format argument; "
         "non-trivial = n ≥ 2; distinct by (case, k)")
 DEFINITE_FLOOR = 0.9
 ASSUMPTIONS = ["std's write_all (short-write loop) is std, not modelled; the failing writer fails a whole call",
@@ -23,7 +24,7 @@ def base_case(rng, i):
         data = {"a": data}
     data["ml"] = "l1\nl2\nl3"
     helpers = {"mk": "mark", "pr": "probe", "vr": "vret"}
-    cfg = {"strict": False, "escape": rng.pick(["html", "none"]), "helpers": std_helpers()}
+    cfg = {"strict": False, "escape": rng.pick(["html", "none"]), "helpers": std_helpers() + [{"name": "wf", "kind": "wfmt"}]}
     tg = TG(rng.fork("p"), data, helpers, [], opt={"inline": False, "partial_block": False})
     p0 = "line1\n{{{ml}}}\n" + tg.partial_body(1)
     main = TG(rng.fork("m"), data, helpers, ["p0"], opt={"missing": 0.1}).template(2)
@@ -33,6 +34,8 @@ def base_case(rng, i):
     main += rng.pick(["", "{{#if nosuch}}A{{else lookup @root \"ml\"}}{{/if}}", "{{#if nosuch}}A{{else eq 1 1}}{{/if}}|",
                       "{{#if nosuch}}A{{else mk 7}}in{{/if}}", "{{#unless ml}}A{{else vr \"<w>\"}}{{/unless}}",
                       "{{#each nosuch}}A{{else lookup @root \"ml\"}}{{/each}}{{#with nosuch}}B{{else len ml}}{{/with}}"])
+    # a helper that writes through the `write!` macro with a format argument (Output::write_fmt)
+    main += rng.pick(["", "{{wf ml}}", "<{{wf \"k=v\"}}>{{#if ml}}{{wf 12345}}{{/if}}", "{{#each ml}}{{/each}}{{wf ml}}|{{wf \"\"}}|"])
     named = rng.chance(0.5)
     return cfg, [("p0", p0), ("main", main)], data, named
 
@@ -53,8 +56,12 @@ def generate(rng, n, tier="quick"):
         cap = 60 if tier == "quick" else 200
         for k in range(cap):
             ops.append(dict(call, op="render", reg=0, data=d, fail_at=k))
+        # short-write writers: accept at most m bytes per call and never fail – the render is the fault-free render
+        shorts = [1, 2, 3, 7]
+        for m in shorts:
+            ops.append(dict(call, op="render", reg=0, data=d, short=m))
         case = {"kind": "session", "regs": [cfg], "ops": ops, "id": "%s-%06d" % (ID, i)}
-        out.append((case, {"nreg": len(templates), "cap": cap}))
+        out.append((case, {"nreg": len(templates), "cap": cap, "shorts": len(shorts)}))
     return out
 
 
@@ -62,6 +69,8 @@ def oracle(case, meta, impl):
     if impl.get("r") != "session":
         return ["no result"]
     rs = impl["results"][meta["nreg"]:]
+    ns = meta.get("shorts", 0)
+    short_rs, rs = (rs[len(rs) - ns:], rs[:len(rs) - ns]) if ns else ([], rs)
     free = rs[0]
     if free.get("r") == "rerr" and free.get("reason") in ("TemplateNotFound", "TemplateError"):
         return None
@@ -72,6 +81,11 @@ def oracle(case, meta, impl):
     else:
         full = free.get("written", "")
         ncalls = None
+    for j, r in enumerate(short_rs):
+        # a writer that accepts fewer bytes than offered loses nothing: same result, same bytes, in order
+        if r.get("r") != free.get("r") or r.get("out", r.get("written")) != free.get("out", free.get("written")) or r.get("reason") != free.get("reason"):
+            v.append("short-write writer #%d: result %s %r differs from the fault-free %s %r" % (
+                j, r.get("r"), r.get("out", r.get("written")), free.get("r"), free.get("out", free.get("written"))))
     prev_len = -1
     for k, r in enumerate(rs[1:]):
         if r.get("r") in ("panic", "crash"):
@@ -100,6 +114,19 @@ def oracle(case, meta, impl):
         if len(v) > 3:
             break
     return v
+
+
+def project(case, meta, res):
+    """the number of calls a short-write writer sees is std's write_all loop's business, not the crate's or the model's"""
+    if res.get("r") != "session":
+        return res
+    out = dict(res)
+    rs = [dict(x) for x in res.get("results", [])]
+    ns = meta.get("shorts", 0)
+    for x in rs[len(rs) - ns:] if ns else []:
+        x.pop("calls", None)
+    out["results"] = rs
+    return out
 
 
 def nontrivial_key(case, meta, impl):
